@@ -701,3 +701,8 @@ mod tests {
         );
     }
 }
+
+// verification hook (guard: cfg(kani)); contract harnesses live outside the repository
+#[cfg(kani)]
+#[path = "/verif/kani/ntp_proto/algorithm/mod.rs"]
+mod verif;
